@@ -178,6 +178,21 @@ func cmdCheck(argv []string) int {
 		results = append(results, &OblResult{Func: strings.TrimPrefix(cm.PkgPath, modulePath+"/") + ".init", Name: "constmap[" + cm.Name + "]", Kind: "constmap", Tags: cm.Tags,
 			Src: cm.Src + map[bool]string{true: "", false: "  -- " + why}[ok], Where: fmt.Sprintf("%s:%d", cm.File, cm.Line), Expect: "unsat", Bytes: len(q), query: q})
 	}
+	for _, cs := range eng.ct.ConstStrs {
+		if *prop != "all" && !hasTag(cs.Tags, *prop) {
+			continue
+		}
+		if *fnFilter != "" && !strings.Contains(cs.PkgPath+"."+cs.Func, *fnFilter) {
+			continue
+		}
+		ok, why := eng.checkConstStr(cs)
+		q := "(assert false)\n(check-sat)\n"
+		if !ok {
+			q = "; " + why + "\n(check-sat)\n"
+		}
+		results = append(results, &OblResult{Func: strings.TrimPrefix(cs.PkgPath, modulePath+"/") + "." + cs.Func, Name: fmt.Sprintf("conststr[%s#%d]", cs.Callee, cs.Ord), Kind: "conststr", Tags: cs.Tags,
+			Src: cs.Src + map[bool]string{true: "", false: "  -- " + why}[ok], Where: fmt.Sprintf("%s:%d", cs.File, cs.Line), Expect: "unsat", Bytes: len(q), query: q})
+	}
 	// vacuity guard for the trusted axioms: the prelude as a whole must not be refutable
 	{
 		all := map[string]bool{}
